@@ -275,4 +275,18 @@ def rescanList : List Elem → List Elem
   | e :: es => rescan e :: rescanList es
 end
 
+/-! ### what a second export can differ in -/
+
+/-- an object with the two attributes the core recomputes on every load (a Group's and a Bridge's depth) cleared -/
+def clearDerived (f : ObjFields) : ObjFields := { f with attrs := (normalise f).attrs }
+/-- ... and the page types the importer drops (size 0) removed -/
+def clearNode (d : Node) : Node := { d with f := clearDerived d.f, pts := d.pts.filter (fun p => p.1 ≠ 0) }
+mutual
+def clearTree : Tree → Tree
+  | .mk d mem nor io misc => .mk (clearNode d) (clearList mem) (clearList nor) (clearList io) (clearList misc)
+def clearList : List Tree → List Tree
+  | [] => []
+  | t :: ts => clearTree t :: clearList ts
+end
+
 end Hw.XmlTree
